@@ -1,2 +1,282 @@
-(** C07 - statements are added once the proofs exist (work in progress). *)
-From Verif Require Import Lib.Base Deb.Model Deb.Spec Deb.Check.
+(** C07 — DebFile returns exactly what was packed and rejects malformed packages.
+    Only statements; every proof is [exact <lemma>] or a short composition.
+
+    Model: Deb/Model.v (the functions Deb/Check.v runs); reference: Deb/Spec.v;
+    proofs: Deb/Proofs.v, Deb/ProofsView.v, Deb/ProofsPacked.v.
+
+    PARTIAL BY CONSTRUCTION (DESIGN §4 C07): the tar container and the gz/bz2/xz/lzma
+    codecs are CPython's and are not modelled.  Everything below that speaks of the
+    content of a part does so for a part that tarfile opens to a given listing
+    ([tgz pt = Ok v]); theorem 6 carries tarfile.open as a Section variable with one
+    round-trip hypothesis.  What is library logic — part discovery and validation,
+    the three DebError exits, name normalisation and the './'+name look-up,
+    scripts(), the md5sums line parser, the extension gate — is proved for all
+    inputs. *)
+From Coq Require Import String Permutation.
+From Verif Require Import Lib.Base Lib.Dec Lib.PyStr Gen.DebConsts
+  Deb.Model Deb.Spec Deb.Proofs Deb.ProofsView Deb.ProofsPacked Deb.Check.
+
+(** 1. deb_accept_iff.  For every member list (any payloads, any order, any number
+       of members): DebFile(...) succeeds iff 'debian-binary' is a member name and
+       exactly one member NAME is a control candidate and exactly one is a data
+       candidate.  Candidates are those of the source constants (regenerated); names
+       are a set — two members with the very same name are one candidate, as in the
+       code (stated, not hidden). *)
+Theorem C07_deb_accept_iff :
+  forall (P : Type) (p_bytes : P -> str) (ms : list (str * P)),
+    is_ok (deb_init P p_bytes ms) = true <->
+    exists c d, In INFO_PART (map fst ms)
+                /\ unique_candidate (map fst ms) CTRL_PART c
+                /\ unique_candidate (map fst ms) DATA_PART d.
+Proof. exact deb_init_ok_iff. Qed.
+
+(** the same decision, as the reference of [holds] computes it from the part names
+    of the property text (Deb/Spec.v: uncompressed or gz/bz2/xz/lzma) *)
+Theorem C07_deb_accept_spec :
+  forall (P : Type) (p_bytes : P -> str) (ms : list (str * P)),
+    is_ok (deb_init P p_bytes ms) = spec_accept (map fst ms).
+Proof. exact deb_init_accept. Qed.
+
+(** otherwise DebError — never KeyError from a member look-up, never anything else *)
+Theorem C07_reject_is_deberror :
+  forall (P : Type) (p_bytes : P -> str) (ms : list (str * P)) e,
+    deb_init P p_bytes ms = Err e -> e = DebError.
+Proof. exact deb_init_only_deberror. Qed.
+
+(** on success the parts are the members found under the unique candidate names, the
+    version is debian-binary's content stripped; a member look-up finds the LAST
+    member of a name *)
+Theorem C07_accepted_parts :
+  forall (P : Type) (p_bytes : P -> str) (ms : list (str * P)) c d,
+    deb_open (map fst ms) = Ok (c, d) ->
+    exists cp dp ip,
+      ar_getmember ms c = Ok cp /\ ar_getmember ms d = Ok dp /\ ar_getmember ms INFO_PART = Ok ip
+      /\ deb_init P p_bytes ms = Ok (mkDeb (c, cp) (d, dp) (strip_by bytes_isspace (p_bytes ip))).
+Proof. exact deb_init_ok. Qed.
+
+Theorem C07_getmember_is_last :
+  forall (P : Type) (ms : list (str * P)) n p,
+    ar_getmember ms n = Ok p <->
+    exists pre post, ms = pre ++ (n, p) :: post /\ ~ In n (map fst post).
+Proof. intros P. exact ar_getmember_last. Qed.
+
+(** every candidate name passes the extension gate of DebPart.tgz() *)
+Theorem C07_gate_admits_candidates :
+  forall c, In c (candidates CTRL_PART ++ candidates DATA_PART) -> ext_gate c = true.
+Proof. intros c H. pose proof gate_candidates as G. rewrite forallb_forall in G. now apply G. Qed.
+
+(** 2. spelling_invariant.  For every part (whether or not it opens), every name n
+       not starting with '/' or './', and s any of n, './'+n, '/'+n: has_file and
+       get_content give the same answer — the same value or the same error. *)
+Theorem C07_spelling_invariant :
+  forall (P : Type) (p_open : P -> option tarview) (pt : part P) n s,
+    plain_name n = true -> In s (spellings n) ->
+    part_has_file P p_open pt s = part_has_file P p_open pt n
+    /\ part_get_content P p_open pt s = part_get_content P p_open pt n.
+Proof. exact spelling_invariant_part. Qed.
+
+(** and what that answer is: the last entry named './'+n of the listing *)
+Theorem C07_spellings_lookup :
+  forall v n s,
+    plain_name n = true -> key_ok n = true -> In s (spellings n) ->
+    has_file v s = is_some (tar_find v (dot_slash n))
+    /\ get_file v s = match tar_find v (dot_slash n) with
+                      | None => Err KeyError
+                      | Some None => Err DebError
+                      | Some (Some b) => Ok b
+                      end.
+Proof. exact spellings_lookup. Qed.
+
+(** [key_ok] is not a hidden restriction: plain, non-empty, no trailing '/' *)
+Theorem C07_key_ok_plain :
+  forall f c, plain_name (f ++ [c]) = true -> is_slash c = false -> key_ok (f ++ [c]) = true.
+Proof. exact key_ok_plain. Qed.
+
+(** 3. md5sums_roundtrip.  Any list of entries (digest: non-empty ASCII without
+       blanks; separator: any non-empty run of blanks other than LF; file name:
+       non-empty, not starting with a blank, no LF inside, not ending in CR — inner and
+       trailing spaces allowed; line end LF or CR..CR LF) written one per line into
+       './md5sums' is read back by md5sums() as the dict name -> digest, later lines
+       overriding earlier ones of the same name, keys in first-occurrence order. *)
+Theorem C07_md5sums_roundtrip :
+  forall (P : Type) (p_open : P -> option tarview) (pt : part P) v es,
+    tgz P p_open pt = Ok v ->
+    tar_find v (dot_slash MD5_FILE) = Some (Some (render_md5 es)) ->
+    forallb entry_ok es = true ->
+    md5sums P p_open pt = Ok (md5_dict es).
+Proof. exact md5sums_roundtrip. Qed.
+
+Theorem C07_md5_dict_distinct :
+  forall es, NoDup (map m_name es) -> md5_dict es = map (fun e => (m_name e, m_md5 e)) es.
+Proof. exact md5_dict_nodup. Qed.
+
+Theorem C07_md5sums_missing :
+  forall (P : Type) (p_open : P -> option tarview) (pt : part P) v,
+    tgz P p_open pt = Ok v -> tar_find v (dot_slash MD5_FILE) = None ->
+    md5sums P p_open pt = Err DebError.
+Proof. exact md5sums_missing. Qed.
+
+(** 4. scripts_exact.  On a control part that opens to listing v, scripts() is
+       exactly the maintainer-script names present as files, in MAINT_SCRIPTS order,
+       each with the content of its (last) entry; DebError iff one of the names is a
+       directory.  Nothing else of the listing is returned. *)
+Theorem C07_scripts_exact :
+  forall (P : Type) (p_open : P -> option tarview) (pt : part P) v,
+    tgz P p_open pt = Ok v ->
+    scripts P p_open pt =
+      if existsb (script_is_dir v) MAINT_SCRIPTS then Err DebError
+      else Ok (script_entries v MAINT_SCRIPTS).
+Proof. exact scripts_exact. Qed.
+
+(** 5. the bytes handed to Deb822 by debcontrol() *)
+Theorem C07_control_bytes :
+  forall (P : Type) (p_open : P -> option tarview) (pt : part P) v b,
+    tgz P p_open pt = Ok v -> tar_find v (dot_slash CONTROL_FILE) = Some (Some b) ->
+    control_bytes P p_open pt = Ok b.
+Proof. exact control_bytes_ok. Qed.
+
+(** 6. deb_returns_packed.  [arch k v] = the member bytes of a tar archive with
+       listing v under codec k (0 stored, 1..4 gz/bz2/xz/lzma); hypothesis
+       [arch_opens]: tarfile.open(mode='r:*') recovers the listing from each of them.
+       Then for ANY member list (any order, duplicates, unrelated members) on which
+       part discovery selects members holding [arch kc cv] and [arch kd dv] — any of
+       the 5 x 5 codec pairs, under any candidate names — where cv carries the
+       control file, the md5sums list and exactly the packed scripts and dv carries
+       the data files: DebFile(...) succeeds, the control bytes, scripts() and
+       md5sums() are what was packed, and every data file is found with its content
+       under each of its three spellings. *)
+Theorem C07_deb_returns_packed :
+  forall (P : Type) (p_bytes : P -> str) (p_open : P -> option tarview)
+         (arch : nat -> tarview -> P),
+    (forall k v, k < 5 -> p_open (arch k v) = Some v) ->
+  forall ms cn dn kc kd cv dv ip pk,
+    kc < 5 -> kd < 5 ->
+    deb_open (map fst ms) = Ok (cn, dn) ->
+    ar_getmember ms cn = Ok (arch kc cv) ->
+    ar_getmember ms dn = Ok (arch kd dv) ->
+    ar_getmember ms INFO_PART = Ok ip ->
+    control_view_ok pk cv = true ->
+    data_view_ok pk dv = true ->
+    exists deb, deb_init P p_bytes ms = Ok deb
+      /\ d_version deb = strip_by bytes_isspace (p_bytes ip)
+      /\ returns_packed P p_open deb pk.
+Proof. exact deb_returns_packed. Qed.
+
+(** the same for a package as it is assembled — debian-binary, one control member,
+    one data member under any candidate names, in ANY member order, with unrelated
+    members anywhere *)
+Theorem C07_deb_returns_packed_assembled :
+  forall (P : Type) (p_bytes : P -> str) (p_open : P -> option tarview)
+         (arch : nat -> tarview -> P) (raw : str -> P),
+    (forall k v, k < 5 -> p_open (arch k v) = Some v) ->
+    (forall b, p_bytes (raw b) = b) ->
+  forall ms extras cn dn kc kd cv dv info pk,
+    kc < 5 -> kd < 5 ->
+    In cn (candidates CTRL_PART) -> In dn (candidates DATA_PART) ->
+    unrelated P extras = true ->
+    Permutation ms ((INFO_PART, raw info) :: (cn, arch kc cv) :: (dn, arch kd dv) :: extras) ->
+    control_view_ok pk cv = true ->
+    data_view_ok pk dv = true ->
+    exists deb, deb_init P p_bytes ms = Ok deb
+      /\ d_version deb = strip_by bytes_isspace info
+      /\ returns_packed P p_open deb pk.
+Proof. exact deb_returns_packed_assembled. Qed.
+
+(** * Non-vacuity *)
+Local Open Scope string_scope.
+Definition s (x : String.string) : str := Lib.Dec.dec x.
+
+(** part discovery: accepted, rejected for each reason, identical duplicate accepted *)
+Example C07_accept_examples :
+  deb_open [s "data.tar.xz"; s "_gpgorigin"; s "debian-binary"; s "control.tar.gz"]
+    = Ok (s "control.tar.gz", s "data.tar.xz")
+  /\ deb_open [s "debian-binary"; s "control.tar"; s "data.tar.lzma"; s "data.tar.lzma"]
+    = Ok (s "control.tar", s "data.tar.lzma")
+  /\ deb_open [s "control.tar.gz"; s "data.tar.gz"] = Err DebError
+  /\ deb_open [s "debian-binary"; s "data.tar.gz"] = Err DebError
+  /\ deb_open [s "debian-binary"; s "control.tar.gz"; s "data.tar.zst"] = Err DebError
+  /\ deb_open [s "debian-binary"; s "control.tar.gz"; s "control.tar"; s "data.tar"] = Err DebError
+  /\ spec_accept [s "data.tar.xz"; s "_gpgorigin"; s "debian-binary"; s "control.tar.gz"] = true
+  /\ spec_accept [s "debian-binary"; s "control.tar.gz"; s "control.tar"; s "data.tar"] = false.
+Proof. vm_compute. repeat split. Qed.
+
+(** md5sums lines: inner and trailing spaces in names, tab separator, CR LF *)
+Definition ex_md5 : list md5_entry :=
+  [mkE (s "d41d8cd98f00b204e9800998ecf8427e") (s "  ") (s "usr/share/doc/a b  c.txt") 0;
+   mkE (s "900150983cd24fb0d6963f7d28e17f72") [9%N] (s "etc/trailing ") 1;
+   mkE (s "0cc175b9c0f1b6a831c399e269772661") (s " ") (s "usr/share/doc/a b  c.txt") 0].
+
+Example C07_md5_nonvacuous :
+  forallb entry_ok ex_md5 = true
+  /\ md5_lines (readlines (render_md5 ex_md5)) []
+     = Ok [(s "usr/share/doc/a b  c.txt", s "0cc175b9c0f1b6a831c399e269772661");
+           (s "etc/trailing ", s "900150983cd24fb0d6963f7d28e17f72")].
+Proof. vm_compute. repeat split. Qed.
+
+(** a package, assembled in the order data, junk, debian-binary, control, read
+    through the very instance the correspondence check runs ([PTar]/[PRaw] payloads:
+    [arch k v := PTar v] meets the round-trip hypothesis by computation) *)
+Definition ex_pk : package :=
+  mkPackage (s "Package: foo\00000aVersion: 1.0\00000a")
+            [(s "postinst", s "#!/bin/sh\00000a"); (s "config", [])]
+            ex_md5
+            [(s "usr/share/doc/a b  c.txt", s "a"); (s "etc/trailing ", [0; 255; 10]%N)].
+
+Definition ex_cv : tarview :=
+  [(s ".", None); (s "./md5sums", Some (render_md5 ex_md5)); (s "./config", Some []);
+   (s "./control", Some (pk_control ex_pk)); (s "./postinst", Some (s "#!/bin/sh\00000a"))].
+Definition ex_dv : tarview :=
+  [(s ".", None); (s "./usr", None); (s "./usr/share/doc/a b  c.txt", Some (s "a"));
+   (s "./etc", None); (s "./etc/trailing ", Some [0; 255; 10]%N)].
+Definition ex_ms : list (str * payload) :=
+  [(s "data.tar.bz2", PTar ex_dv); (s "_gpgorigin", PRaw (s "sig")); (s "debian-binary", PRaw (s "2.0\00000a"));
+   (s "control.tar.xz", PTar ex_cv)].
+
+Example C07_nonvacuous :
+  (forall k v, k < 5 -> pl_open ((fun _ v => PTar v) k v) = Some v)
+  /\ (forall b, pl_bytes (PRaw b) = b)
+  /\ In (s "control.tar.xz") (candidates CTRL_PART) /\ In (s "data.tar.bz2") (candidates DATA_PART)
+  /\ unrelated payload [(s "_gpgorigin", PRaw (s "sig"))] = true
+  /\ Permutation ex_ms ((INFO_PART, PRaw (s "2.0\00000a")) :: (s "control.tar.xz", PTar ex_cv)
+                        :: (s "data.tar.bz2", PTar ex_dv) :: [(s "_gpgorigin", PRaw (s "sig"))])
+  /\ control_view_ok ex_pk ex_cv = true
+  /\ data_view_ok ex_pk ex_dv = true
+  /\ forallb (fun fb => plain_name (fst fb)) (pk_files ex_pk) = true
+  /\ match deb_init payload pl_bytes ex_ms with
+     | Ok deb =>
+         d_version deb = s "2.0"
+         /\ scripts payload pl_open (d_control deb)
+            = Ok [(s "postinst", s "#!/bin/sh\00000a"); (s "config", [])]
+         /\ part_get_content payload pl_open (d_data deb) (s "/etc/trailing ") = Ok [0; 255; 10]%N
+         /\ part_has_file payload pl_open (d_data deb) (s "./usr/share/doc/a b  c.txt") = Ok true
+     | Err _ => False
+     end.
+Proof.
+  split; [reflexivity|]. split; [reflexivity|].
+  split; [vm_compute; tauto|]. split; [vm_compute; tauto|].
+  split; [reflexivity|].
+  split.
+  { unfold ex_ms. change INFO_PART with (s "debian-binary").
+    eapply perm_trans; [apply perm_swap|]. eapply perm_trans; [apply perm_skip; apply perm_swap|].
+    eapply perm_trans; [apply perm_swap|]. apply perm_skip.
+    eapply perm_trans; [apply perm_skip; apply perm_swap|].
+    eapply perm_trans; [apply perm_swap|]. apply perm_skip. apply perm_swap. }
+  vm_compute. repeat split.
+Qed.
+
+Print Assumptions C07_deb_accept_iff.
+Print Assumptions C07_deb_accept_spec.
+Print Assumptions C07_reject_is_deberror.
+Print Assumptions C07_accepted_parts.
+Print Assumptions C07_getmember_is_last.
+Print Assumptions C07_gate_admits_candidates.
+Print Assumptions C07_spelling_invariant.
+Print Assumptions C07_spellings_lookup.
+Print Assumptions C07_key_ok_plain.
+Print Assumptions C07_md5sums_roundtrip.
+Print Assumptions C07_md5_dict_distinct.
+Print Assumptions C07_md5sums_missing.
+Print Assumptions C07_scripts_exact.
+Print Assumptions C07_control_bytes.
+Print Assumptions C07_deb_returns_packed.
+Print Assumptions C07_deb_returns_packed_assembled.
